@@ -228,6 +228,37 @@ func c01(args []string) error {
 		ev.Emit(obj{"op": "pip", "shape": sh.JSON(), "pts": pts, "got": got, "api": api.name, "cfg": fmt.Sprintf("kind=%v min=%d", opts.Kind, opts.MinPoints), "map": mp.Name, "src": "rec"})
 		recorded += len(pts)
 	}
+	// ---- large coordinates (up to 2^20): probes one lattice step off long sloped edges, judged by BigKernel.tla
+	for k := 0; k < nrandom/10; k++ {
+		g := []int{1, 1, 4, 32}[rng.Intn(4)]
+		pdx, pdy := 1+rng.Intn((1<<19)/g), 1+rng.Intn((1<<19)/g)
+		for gcd(pdx, pdy) != 1 {
+			pdy++
+		}
+		dx, dy := pdx*g, pdy*g
+		ax, ay := -dx/2+rng.Intn(101), -dy/2+rng.Intn(101)
+		x, y := bezout(pdx, pdy)
+		j := rng.Intn(g)
+		var sh Shape
+		if rng.Intn(3) == 0 {
+			sh = Shape{Kind: "line", Pts: [][]int{{ax, ay}, {ax + dx, ay + dy}, {ax + dx, ay - 7}}}
+		} else {
+			sh = Shape{Kind: "poly", Ext: [][]int{{ax, ay}, {ax + dx, ay + dy}, {ax - 1000, ay + dy + 1000}, {ax, ay}}}
+			if rng.Intn(2) == 0 {
+				sh.Ext = rev(sh.Ext)
+			}
+		}
+		pts := [][]int{{ax + x + j*pdx, ay + y + j*pdy}, {ax - x + (j+1)*pdx, ay - y + (j+1)*pdy}, {ax + j*pdx, ay + j*pdy},
+			{ax + dx, ay + dy}, {ax - 5, ay}, {ax + dx/2, ay + dy + 1000}, {ax + dx + 3, ay + dy}, {ax - 1000 - 1, ay + dy + 1000}}
+		opts := inflateIndex[rng.Intn(len(inflateIndex))]
+		gm := sh.Geom(Identity, &opts)
+		got := make([]int, len(pts))
+		for i, q := range pts {
+			got[i] = b2i(gm.ContainsPoint(Identity.P(q[0], q[1])))
+		}
+		ev.Emit(obj{"op": "pip", "shape": sh.JSON(), "pts": pts, "got": got, "api": "geom.ContainsPoint", "big": 1, "src": "rec"})
+		recorded += len(pts)
+	}
 	printJSON(obj{"rows": rows, "maps": len(maps), "evaluations": evals, "mismatches": mism, "recorded": recorded, "events": ev.N, "series_ge_64_points": bigSeries})
 	return nil
 }
